@@ -1,8 +1,13 @@
 (* line-protocol driver around the extracted models of coq/Ctx (module Ctx).
    ctx resize old|fixed : one operation per line
-        new | setpoly <d> <z> m|s|f | algo u|s | goal i|a|c | solve | solve_async | get_roots | bad | abort
+        new | setpoly <d> <z> m|s|f|c | algo u|s | goal i|a|c | solve | solve_async | get_roots | bad | abort
         | free_poly | free          (anything else: echoed as "skip")
       -> ok=<0|1> ctx= init= n= deg= zr= err= exitreq= sec= leaked= pools= have_poly= alloc=<sizes of the 12 arrays>
+   ctx api old|fixed : the widened operation set (Ctx/ApiModel.v), one operation per line
+        new | free | setpoly <d> <z> m|s|f|c | setdeg <n> | algo u|s | goal i|a|c | prec <p> | format <f> | startphase <0..3>
+        | jacobi <0|1> | crude <0|1> | avoidmp <0|1> | solve <over> <phase> <err> | solve_async <over> <phase> <err>
+        | get_roots | bad | abort | free_poly        (solve arguments: the outcome of the numerical part)
+      -> the fields of "resize" plus over= phase= oprec= fmt= sph= jac= crude= avoid= algo= goal=
    ctx error old|fixed : one call per line, tab separated:  fmt-pieces...   where a piece is L<text> or A,
         then a field "|" then the argument texts, then "|" then junk texts
       -> flag=<0|1> msg=<text or NONE> intended=<text>
@@ -26,7 +31,7 @@ let resize v =
          | ["new"] -> Some ONew
          | ["setpoly"; d; z; k] ->
            Some (OSetPoly (z_of_int (int_of_string d), z_of_int (int_of_string z),
-                           (match k with "s" -> KSecular | "f" -> KFileMonomial | _ -> KMonomial)))
+                           (match k with "s" -> KSecular | "f" -> KFileMonomial | "c" -> KChebyshev | _ -> KMonomial)))
          | ["algo"; a] -> Some (OAlgo (if a = "s" then AlgoS else AlgoU))
          | ["goal"; g] -> Some (OGoal (match g with "a" -> GoalApprox | "c" -> GoalCount | _ -> GoalIsolate))
          | ["solve"] -> Some OSolve
@@ -46,6 +51,55 @@ let resize v =
          (b2i st.ctx) (b2i st.init) (int_of_z st.n) (int_of_z st.deg) (int_of_z st.zr) (b2i st.err) (b2i st.exitreq)
          (match st.sec with None -> -1 | Some z -> int_of_z z) (b2i st.leaked) (int_of_z st.pools) (b2i st.have_poly)
          (String.concat "," (List.map (fun a -> string_of_int (int_of_z (st.alloc a))) all_arrs))
+     done
+   with End_of_file -> ());
+  Printf.printf "end ok=%d\n" (b2i !okall)
+
+let api v =
+  let w = ref wempty and okall = ref true in
+  let ph k = match k with 1 -> FloatPhase | 2 -> DpePhase | 3 -> MpPhase | _ -> NoPhase in
+  let iph = function NoPhase -> 0 | FloatPhase -> 1 | DpePhase -> 2 | MpPhase -> 3 in
+  let bo x = int_of_string x <> 0 in
+  let oc a b c = { o_over = bo a; o_phase = ph (int_of_string b); o_err = bo c } in
+  (try
+     while true do
+       let line = input_line stdin in
+       let ws = List.filter (fun x -> x <> "") (String.split_on_char ' ' (String.trim line)) in
+       let o = match ws with
+         | ["new"] -> Some WNew
+         | ["free"] -> Some WFree
+         | ["setpoly"; d; z; k] ->
+           Some (WSetPoly (z_of_int (int_of_string d), z_of_int (int_of_string z),
+                           (match k with "s" -> KSecular | "f" -> KFileMonomial | "c" -> KChebyshev | _ -> KMonomial)))
+         | ["setdeg"; n] -> Some (WSetDegree (z_of_int (int_of_string n)))
+         | ["algo"; a] -> Some (WAlgo (if a = "s" then AlgoS else AlgoU))
+         | ["goal"; g] -> Some (WGoal (match g with "a" -> GoalApprox | "c" -> GoalCount | _ -> GoalIsolate))
+         | ["prec"; p] -> Some (WPrec (z_of_int (int_of_string p)))
+         | ["format"; f] -> Some (WFormat (z_of_int (int_of_string f)))
+         | ["startphase"; k] -> Some (WStartPhase (ph (int_of_string k)))
+         | ["jacobi"; x] -> Some (WJacobi (bo x))
+         | ["crude"; x] -> Some (WCrude (bo x))
+         | ["avoidmp"; x] -> Some (WAvoidMp (bo x))
+         | ["solve"; a; b; c] -> Some (WSolve (oc a b c))
+         | ["solve_async"; a; b; c] -> Some (WSolveAsync (oc a b c))
+         | ["get_roots"] -> Some WGetRoots
+         | ["bad"] -> Some WBad
+         | ["abort"] -> Some WAbort
+         | ["free_poly"] -> Some WFreePoly
+         | _ -> None in
+       (match o with
+        | None -> print_string "skip "
+        | Some o -> let (w1, ok) = wstep v !w o in w := w1; okall := !okall && ok;
+          Printf.printf "ok=%d " (b2i ok));
+       let wt = !w in let st = wt.b in
+       Printf.printf "ctx=%d init=%d n=%d deg=%d zr=%d err=%d exitreq=%d sec=%d leaked=%d pools=%d have_poly=%d alloc=%s"
+         (b2i st.ctx) (b2i st.init) (int_of_z st.n) (int_of_z st.deg) (int_of_z st.zr) (b2i st.err) (b2i st.exitreq)
+         (match st.sec with None -> -1 | Some z -> int_of_z z) (b2i st.leaked) (int_of_z st.pools) (b2i st.have_poly)
+         (String.concat "," (List.map (fun a -> string_of_int (int_of_z (st.alloc a))) all_arrs));
+       Printf.printf " over=%d phase=%d oprec=%d fmt=%d sph=%d jac=%d crude=%d avoid=%d algo=%d goal=%d\n"
+         (b2i wt.over) (iph wt.lphase) (int_of_z wt.oprec) (int_of_z wt.ofmt) (iph wt.sphase) (b2i wt.jac) (b2i wt.crude)
+         (b2i wt.avoidmp) (match st.alg with AlgoS -> 1 | AlgoU -> 0)
+         (match st.gl with GoalIsolate -> 0 | GoalApprox -> 1 | GoalCount -> 2)
      done
    with End_of_file -> ());
   Printf.printf "end ok=%d\n" (b2i !okall)
@@ -83,7 +137,9 @@ let () =
   match Array.to_list Sys.argv with
   | [_; "resize"; "old"] -> resize Old
   | [_; "resize"; "fixed"] -> resize Fixed
+  | [_; "api"; "old"] -> api Old
+  | [_; "api"; "fixed"] -> api Fixed
   | [_; "error"; "old"] -> errors Old0
   | [_; "error"; "fixed"] -> errors Fixed0
   | [_; "async"] -> async ()
-  | _ -> prerr_endline "usage: ctx resize|error old|fixed | async"; exit 2
+  | _ -> prerr_endline "usage: ctx resize|api|error old|fixed | async"; exit 2
